@@ -708,7 +708,9 @@ impl<W: Write + io::Seek> ZipWriter<W> {
             .last_modified_time(file.last_modified())
             .compression_method(file.compression());
         if let Some(perms) = file.unix_mode() {
-            options = options.unix_permissions(perms);
+            // keep the whole mode: with the file type bits masked off, permission bits 000
+            // would become external attributes 0, which readers report as "no mode"
+            options.permissions = Some(perms);
         }
 
         let raw_values = ZipRawValues {
